@@ -727,6 +727,15 @@ func (E *Engine) VerifyFunc(p *packages.Package, pc *PkgContracts, c *FuncContra
 	res.Errs = append(res.Errs, f.errs...)
 	res.Errs = append(res.Errs, f.cerrs...)
 	// obligation names keep the identifiers the contract was written with (names.go: renamed receiver / locals)
+	if len(c.LoopUnperm) > 0 {
+		for _, o := range res.Obls {
+			if i := strings.Index(o.Name, "/"); i >= 0 {
+				j := strings.LastIndex(o.Name, "/")
+				o.Name = o.Name[:j+1] + unpermLoops(o.Name[j+1:], c.LoopUnperm)
+				_ = i
+			}
+		}
+	}
 	if len(c.Unrename) > 0 || len(c.UnrenameText) > 0 {
 		for _, o := range res.Obls {
 			o.Name = unrenameObligation(o.Name, f.key, c.Unrename, c.UnrenameText)
